@@ -3,6 +3,8 @@ package main
 import (
 	"fmt"
 	"go/token"
+	"go/types"
+	"strings"
 
 	"golang.org/x/tools/go/ssa"
 )
@@ -48,13 +50,133 @@ func mayCarryBytes(p *Prog, v, src ssa.Value) bool {
 	return n > 0
 }
 
+// readCarrier: the call carries the bytes of a terminal read through — every input key is
+// represented in its output, or kept in a field of core.Keys for the next read. That is
+// strutil.ConvertMeta (per-rune conversion of the chunk), or an unexported function of package
+// core every result of which, and everything it stores to a []byte field of core.Keys, is built
+// only from its []byte parameters and those fields (through ConvertMeta, append, slicing), and
+// which drops nothing: a head `b[:k]` it cuts has its tail `b[k:]` stored in such a field.
+// Returns the operands the slice continues from, or nil.
+func readCarrier(p *Prog, cl *ssa.Call) []ssa.Value {
+	if calleeName(cl) == "strutil.ConvertMeta" {
+		return cl.Call.Args
+	}
+	h := staticCallee(cl)
+	if h == nil || !inRepo(h) || !isPrivateHelper(h) || len(h.Blocks) == 0 || h.Package() == nil || !strings.HasSuffix(h.Package().Pkg.Path(), "internal/core") {
+		return nil
+	}
+	isBytes := func(t types.Type) bool {
+		sl, ok := t.Underlying().(*types.Slice)
+		if !ok {
+			return false
+		}
+		b, ok := sl.Elem().Underlying().(*types.Basic)
+		return ok && b.Kind() == types.Uint8
+	}
+	isKeysBytesField := func(addr ssa.Value) bool {
+		t, _, ok := fieldOf(addr)
+		if !ok || t != "core.Keys" {
+			return false
+		}
+		pt, ok := addr.Type().Underlying().(*types.Pointer)
+		return ok && isBytes(pt.Elem())
+	}
+	isSrc := func(v ssa.Value) bool {
+		if pa, ok := v.(*ssa.Parameter); ok && isBytes(pa.Type()) {
+			return true
+		}
+		if u, ok := v.(*ssa.UnOp); ok && u.Op == token.MUL && isKeysBytesField(u.X) {
+			return true
+		}
+		return false
+	}
+	pure := func(v ssa.Value) bool {
+		if isNilConst(v) {
+			return true
+		}
+		leaves := backSlice(v, &SliceOpts{P: p, IsSource: isSrc, Through: func(c *ssa.Call) []ssa.Value {
+			if calleeName(c) == "strutil.ConvertMeta" {
+				return c.Call.Args
+			}
+			return nil
+		}})
+		if len(leaves) == 0 {
+			return false
+		}
+		for _, l := range leaves {
+			if l.Kind == LeafOpaque {
+				return false
+			}
+		}
+		return true
+	}
+	good := true
+	nret := 0
+	var heads, tails []*ssa.Slice
+	eachInstr(h, func(in ssa.Instruction) {
+		switch x := in.(type) {
+		case *ssa.Return:
+			for _, res := range x.Results {
+				if isBytes(res.Type()) {
+					nret++
+					if !pure(res) {
+						good = false
+					}
+				}
+			}
+		case *ssa.Store:
+			if isKeysBytesField(x.Addr) && !pure(x.Val) {
+				good = false
+			}
+		case *ssa.Slice:
+			if !isBytes(x.X.Type()) {
+				return
+			}
+			switch {
+			case x.Low == nil && x.High != nil:
+				if k, ok := constInt(x.High); ok && k == 0 {
+					return
+				}
+				heads = append(heads, x)
+			case x.Low != nil && x.High == nil:
+				tails = append(tails, x)
+			case x.Low != nil && x.High != nil:
+				good = false
+			}
+		}
+	})
+	if !good || nret == 0 {
+		return nil
+	}
+	for _, hd := range heads {
+		kept := false
+		for _, tl := range tails {
+			if !sameValue(tl.X, hd.X) || !sameValue(tl.Low, hd.High) {
+				continue
+			}
+			eachInstr(h, func(in ssa.Instruction) {
+				if st, ok := in.(*ssa.Store); ok && isKeysBytesField(st.Addr) && dependsOn(st.Val, func(v ssa.Value) bool { return v == ssa.Value(tl) }) {
+					kept = true
+				}
+			})
+		}
+		if !kept {
+			return nil
+		}
+	}
+	var out []ssa.Value
+	for _, a := range cl.Call.Args {
+		if isBytes(a.Type()) {
+			out = append(out, a)
+		}
+	}
+	return out
+}
+
 func bytesLeaves(p *Prog, v, src ssa.Value) (int, int) {
 	leaves := backSlice(v, &SliceOpts{P: p, IsSource: func(x ssa.Value) bool { return x == src }, Through: func(cl *ssa.Call) []ssa.Value {
 		// per-rune meta conversion of the chunk: every input key is represented in the output
-		if calleeName(cl) == "strutil.ConvertMeta" {
-			return cl.Call.Args
-		}
-		return nil
+		return readCarrier(p, cl)
 	}})
 	n, opaque := 0, 0
 	for _, l := range leaves {
